@@ -61,12 +61,12 @@ ProcessMut(x, len) == Proc(x, len, "process_mut")
 Seek(x, blk) == /\ Tick /\ ~Carry /\ ctx[x].live
                 /\ ctx' = [ctx EXCEPT ![x] = [@ EXCEPT !.ctr = <<blk, @[2]>>, !.off = B, !.pos = <<<<blk, ctx[x].ctr[2]>>, 0, 0>>]]
                 /\ lastOut' = <<>> /\ UNCHANGED nextByte
-                /\ hist' = Log([op |-> "seek", x |-> x, block |-> blk, br |-> IF ctx[x].off = B THEN "atboundary" ELSE "midblock"])
+                /\ hist' = Log([op |-> "seek", x |-> x, block |-> blk, br |-> (IF ctx[x].off = B THEN "atboundary" ELSE "midblock") \o (IF blk = M - 1 THEN "+max" ELSE "")])
 \* verification hook: both counter words (64-bit counter variants)
 SetCounter(x, lo, hi) == /\ Tick /\ Carry /\ ctx[x].live
                 /\ ctx' = [ctx EXCEPT ![x] = [@ EXCEPT !.ctr = <<lo, hi>>, !.off = B, !.pos = <<<<lo, hi>>, 0, 0>>]]
                 /\ lastOut' = <<>> /\ UNCHANGED nextByte
-                /\ hist' = Log([op |-> "set_counter", x |-> x, lo |-> lo, hi |-> hi])
+                /\ hist' = Log([op |-> "set_counter", x |-> x, lo |-> lo, hi |-> hi, br |-> (IF lo = M - 1 THEN "lomax" ELSE "lo") \o (IF hi = 0 THEN "" ELSE "+hi")])
 Clone(x, y) == /\ Tick /\ ctx[x].live /\ ~ctx[y].live /\ ctx' = [ctx EXCEPT ![y] = ctx[x]] /\ lastOut' = <<>> /\ UNCHANGED nextByte
                /\ hist' = Log([op |-> "clone", x |-> x, y |-> y, br |-> IF ctx[x].off = B THEN "atboundary" ELSE "midblock"])
 \* involution: two copies at the same position; the second processes the first one's output
